@@ -278,6 +278,48 @@ CHECKS["C07"] = {
                    "before/after every evaluation (hook), stack capacity / live heap / sp / trace length after 10 vs 1000 failures",
 }
 
+CHECKS["C19"] = {
+    "engine": "c19",
+    "level": "exploration",
+    "lanes_quick": [("release", None), ("dev", None)],
+    "lanes_thorough": [("release", None), ("dev", None)],
+    "exhaustive_claim": True,
+    "as_gib": 10,
+    "floors": {"cells_completed": 50},
+    "rule": "grid cells direction:operation:depth:thread:build with direction in {car-nested list, cdr-nested list, nested vectors, quote chain, closure "
+            "chain, continuation chain, non-tail recursion, nested expression}, the operations meaningful for it among {read, quote-evaluate, build at "
+            "run time, keep live across two forced collections, equal?, write, drop, call, evaluate, error-at-depth, capture-continuation, "
+            "lambda-body}, depth in {10^3, 10^4, 10^5}, thread in {main thread with RLIMIT_STACK 8 MiB, std::thread with 2 MiB}, build in {dev, "
+            "release}. Quick runs every cell at 10^3 and 10^4 and the release/main-thread column at 10^5; thorough runs the whole grid "
+            "(exhaustive). One evaluation = one child process. A cell is non-trivial when its child ran to completion; distinct = distinct cells.",
+    "assumptions": TRUSTED_COMMON + [
+        "each cell runs in its own child process; only death by signal counts, a printed error is a pass",
+        "omitted cells: closure/continuation chains and recursion have no textual form (no read / quote-evaluate / write / equal?); nested expressions are code (no build / collect / equal? / write)",
+        "the Cell or Vm is leaked (mem::forget) in every operation except 'drop', so that a destructor cannot decide another operation's cell",
+    ],
+    "explanation": "exit status of an isolated child per grid cell under explicit stack limits",
+}
+
+CHECKS["C18"] = {
+    "engine": "c18",
+    "level": "exploration",
+    "lanes_quick": [("release", None)],
+    "lanes_thorough": [("release", None), ("chk", None)],
+    "floors": {"identity_checks": 10000, "inverse_string_symbol_string": 10000, "collections_observed": 100000},
+    "rule": "names: empty, plain, with whitespace, with delimiters, with backslashes and \\x..; look-alikes, number-like, non-ASCII, random Unicode; name2 "
+            "is name1 (half), a one-character near miss, or independent. Routes: literal, element of a quoted list / vector, string->symbol, output of a "
+            "syntax-rules macro, eval of a constructed quote form, string->symbol of a computed string, quasiquote element (literal-based routes only when "
+            "the spelling marwood itself writes for the symbol reads back as that symbol). Modes: same evaluation; two evaluations with a forced "
+            "collection between; first production dropped and collected before two new ones; both held in a list across a collection. Schedules: none, "
+            "every instruction, every k-th (k<=7), random 1-in-3, all with the heap auditor (symbol-table bijection) after each collection. Every case "
+            "also checks both inverse laws. distinct = distinct (name1, name2, route1, route2).",
+    "assumptions": TRUSTED_COMMON + [
+        "the name of a symbol is what symbol->string returns; literal spellings are the canonical ones marwood's writer produces for (string->symbol s), "
+        "never hand-written escape spellings",
+    ],
+    "explanation": "Scheme-level eq?/string=? results compared with name equality; intern table audited after every forced collection",
+}
+
 # ---- texts for MANIFEST.json (tools/gen_manifest.py) ----
 MANIFEST_TEXT = {}
 NOT_APPLICABLE = {}
@@ -387,4 +429,20 @@ MANIFEST_TEXT["C07"] = {
                   "a twin that only performed the completed effects, including the stack trace of a later failure, and the stack pointer is "
                   "checked at every evaluation boundary.",
     "level_note": "Trusts the construction 'explicit effects then failing context' for exactness of the twin, and the stats hook.",
+}
+
+MANIFEST_TEXT["C19"] = {
+    "technique": "runtime monitoring: process-exit observer over a complete scenario grid, each cell in its own child process under explicit native-stack limits, in debug and optimised builds",
+    "design_ref": "DESIGN.md 6 C19",
+    "level_text": "The grid the property names is run cell by cell (exhaustively in thorough); an abort is observed as death by signal of the child. Cells that "
+                  "abort on the pinned tree are listed individually as open findings, so a newly failing cell is still a violation.",
+    "level_note": "Stack need is deterministic per cell and build up to a few kilobytes of environment; cells within that margin of the limit could flip.",
+}
+
+MANIFEST_TEXT["C18"] = {
+    "technique": "runtime monitoring: identity oracle (eq? iff names equal) over production-route pairs under forced-collection schedules, with the heap auditor's symbol-table bijection check after every collection",
+    "design_ref": "DESIGN.md 6 C18",
+    "level_text": "Tens of thousands of names of every lexical class, every pair of production routes, within and across evaluations, with collections placed "
+                  "at every instruction boundary between the two productions; the intern table is audited after each collection.",
+    "level_note": "Trusts the hook, the auditor and marwood's writer for canonical spellings.",
 }
